@@ -119,7 +119,7 @@ myth_tls_call_destructors_rec(myth_tls_tree_node_t * n,
       /* only a live key (marked as used) has a meaningful destructor */
       int live = (ka->keys[k].next == (myth_tls_key_entry_t *)-1);
       void (*destructor)(void *) = ka->keys[k].destructor;
-      if (live && destructor) {
+      if (live && destructor && (val || !ka->keys[k].posix_destructor)) {
 	n->entries[i].value = 0;
 	destructor(val);
 	s++;
@@ -290,6 +290,7 @@ myth_tls_key_allocator_alloc(myth_tls_key_allocator_t * s,
 	MYTH_VERIF_EV3("KaCas", (long)((ke) ? (((ke) == (myth_tls_key_entry_t *)-1) ? -2 : (long)((ke) - s->keys)) : -1), (long)((next) ? (((next) == (myth_tls_key_entry_t *)-1) ? -2 : (long)((next) - s->keys)) : -1), 1);
 	ke->next = (myth_tls_key_entry_t *)-1;
 	ke->destructor = destructor;
+	ke->posix_destructor = 0;
 	MYTH_VERIF_EV0("KaUnlock");
 	myth_spin_unlock_body(&s->lock);
 	return ke - s->keys;
